@@ -1,18 +1,27 @@
 #!/usr/bin/env python3
-"""mkmutant.py <name> <rule-expected> <file> <<< JSON {"old":..., "new":...}  -- create mutants/<name>.patch from a textual replacement in a scratch worktree of /repo HEAD"""
+"""mkmutant.py <name> <expected-rule|BENIGN> <<< JSON {"edits":[{"file":..,"old":..,"new":..},..], "property":.., "why":..}
+Creates mutants/<name>.patch (or mutants/benign/<name>.patch) from textual replacements in a scratch worktree of /repo HEAD,
+after checking that the result still type-checks with all features (cargo check --offline)."""
 import json, os, subprocess, sys, tempfile
-name, rule, rel = sys.argv[1:4]
+name, rule = sys.argv[1:3]
 spec = json.load(sys.stdin)
+edits = spec.get("edits") or [{"file": spec["file"], "old": spec["old"], "new": spec["new"]}]
 wt = tempfile.mkdtemp(prefix="hbv-mk.")
 subprocess.check_call(["git", "-C", "/repo", "worktree", "add", "-q", "--detach", wt, "HEAD"])
 try:
-    p = os.path.join(wt, rel)
-    s = open(p).read()
-    assert s.count(spec["old"]) == 1, "old text occurs %d times" % s.count(spec["old"])
-    open(p, "w").write(s.replace(spec["old"], spec["new"]))
+    for e in edits:
+        p = os.path.join(wt, e["file"])
+        s = open(p).read()
+        assert s.count(e["old"]) == 1, "old text occurs %d times in %s: %r" % (s.count(e["old"]), e["file"], e["old"][:60])
+        open(p, "w").write(s.replace(e["old"], e["new"]))
+    env = dict(os.environ, CARGO_NET_OFFLINE="true", CARGO_TARGET_DIR="/tmp/hbv-mk-target")
+    r = subprocess.run(["cargo", "check", "--offline", "--lib", "--features", "rayon,serde,rustc-internal-api"], cwd=wt, env=env, stdout=subprocess.PIPE, stderr=subprocess.STDOUT, text=True)
+    if r.returncode != 0:
+        print(r.stdout[-3000:]); print("DOES NOT COMPILE - not written"); sys.exit(1)
     d = subprocess.check_output(["git", "-C", wt, "diff"], text=True)
     hdr = "# mutant: %s\n# expected-rule: %s\n# expected-property: %s\n# why: %s\n" % (name, rule, spec.get("property", ""), spec.get("why", ""))
-    open("/verif/mutants/%s.patch" % name, "w").write(hdr + d)
-    print("wrote mutants/%s.patch (%d lines)" % (name, len(d.splitlines())))
+    out = "/verif/mutants/%s%s.patch" % ("benign/" if rule == "BENIGN" else "", name)
+    open(out, "w").write(hdr + d)
+    print("wrote %s (%d lines)" % (out, len(d.splitlines())))
 finally:
     subprocess.call(["git", "-C", "/repo", "worktree", "remove", "--force", wt])
